@@ -51,7 +51,7 @@ fn main() {
                 if req.is_empty() {
                     continue;
                 }
-                let ans = if req.starts_with("x ") { l2::answer(req) } else { l1::answer(req) };
+                let ans = if req.starts_with("x ") || req.starts_with("xr ") || req.starts_with("xs ") { l2::answer(req) } else { l1::answer(req) };
                 writeln!(out, "{} => {}", req, ans).unwrap();
             }
         }
